@@ -17,7 +17,7 @@ RULE = (
     "'Coverage is not sorted' warning may be logged.  Non-trivial = non-identity permutation; distinct = (font, permutation)."
 )
 ASSUMPTIONS = ["meaning extractor vf/oracle/layout.py pairs array i with covered glyph i as the spec does; cross-checked by recompiling the same feature text in the permuted order"]
-N = {"quick": 400, "thorough": 4000}
+N = {"quick": 1200, "thorough": 8000}
 REQUIRED_KINDS = [
     ("GSUB", "SingleSubst"), ("GSUB", "MultipleSubst"), ("GSUB", "AlternateSubst"), ("GSUB", "LigatureSubst"), ("GSUB", "ContextSubst", 1), ("GSUB", "ContextSubst", 2), ("GSUB", "ContextSubst", 3),
     ("GSUB", "ChainContextSubst", 1), ("GSUB", "ChainContextSubst", 2), ("GSUB", "ChainContextSubst", 3), ("GSUB", "ReverseChainSingleSubst"),
